@@ -81,8 +81,8 @@ def itemsDepth : List Item → Nat
 def Item.depth : Item → Nat
   | .val n => n.depth
   | .hdr _ body => 1 + body.depth
-  | .opTok _ => 0
-  | .mixedTok => 0
+  | .opTok _ => 1
+  | .mixedTok => 1
 def fieldsDepth : List Field → Nat
   | [] => 0
   | f :: fs => max f.depth (fieldsDepth fs)
